@@ -16,7 +16,7 @@ ENGINES = {
 
 # property -> (engine, category, text, note, technique, design_ref)
 T = "stateful property-based testing (proptest) with generated schedules and fault scripts; "
-B = "trusted: the harness's scripted manager, object ledger and call log; schedule points only between statements of deadpool (sequential consistency; tokio's semaphore internals are not interleaved); bounds max_size <= 5, <= 6 concurrent gets, <= 2 hooks per kind, <= 60 steps"
+B = "trusted: the harness's scripted manager, object ledger and call log; schedule points between statements of deadpool and inside every callback made without the pool's lock (sequential consistency; tokio's semaphore internals are not interleaved); stages: random histories, bounded-preemption sweep (every placement of one pause in a pause-free history) and, for C01 C02 C08 C09 C11, lock contention (an operation started while retain() holds the lock in its predicate); bounds max_size <= 5, <= 6 concurrent gets, <= 2 hooks per kind, <= 60 steps"
 
 CHECKS = {
     "C01": ("msim", "exploration",
@@ -50,17 +50,17 @@ CHECKS = {
             "Per object id the harness keeps its own hand-out count h. After every hand-out Object::metrics() must show the same created instant, recycle_count == h-1 and recycled absent for h == 1 and non-decreasing afterwards; hooks and Manager::recycle during the h-th hand-out must see recycle_count == h-2 and no recycled instant before the first reuse; post_create hooks see fresh metrics; retain must see exactly what Object::metrics() last reported.",
             "instants are only compared with each other, never with a wall-clock threshold; " + B, "stateful property-based testing (proptest); per-object reference counters as oracle", "6 C13"),
     "C10": ("tsim", "exploration",
-            "Managed and unmanaged pools with pool-level and per-call wait / create / recycle timeouts in {none, zero, finite}, runtime present (paused tokio clock, futures polled by hand, every woken future polled after every step, Advance stopping at each pending deadline) or absent (no tokio context at all). An independent reference model of FIFO admission, idle queue, gated create / recycle calls and their deadlines predicts for every call whether it is pending or finished and with which result (object id, Timeout(Wait), Timeout(Create), Closed, NoRuntimeSpecified, Backend), which objects were rejected, and how many slots are in use; build() must refuse non-zero timeouts without a runtime.",
+            "Managed and unmanaged pools with pool-level and per-call wait / create / recycle timeouts in {none, zero, finite}, runtime present (paused tokio clock, futures polled by hand, every woken future polled after every step, Advance stopping at each pending deadline; lazy steps leave a woken caller unpolled until later, so a completion that came before the deadline is observed after it) or absent (no tokio context at all). An independent reference model of FIFO admission, idle queue, gated create / recycle calls and their deadlines predicts for every call whether it is pending or finished and with which result (object id, Timeout(Wait), Timeout(Create), Closed, NoRuntimeSpecified, Backend), which objects were rejected, and how many slots are in use; build() must refuse non-zero timeouts without a runtime.",
             "tokio runtime only; ties between two callers' deadlines are skipped; zero create / recycle timeouts without a runtime and timeouts a call never gets to use are not judged (an up-front NoRuntimeSpecified that touches nothing is accepted)",
             "model-based property testing (proptest) on a virtual clock; reference timing model as oracle", "6 C10"),
     "C16": ("pgx", "exploration",
-            "deadpool-postgres is run through Manager::from_connect against an in-process scripted PostgreSQL wire server (startup, simple query, Parse / Describe / Sync, Close, BEGIN / ROLLBACK) over tokio duplex streams. Histories of get / return / take / resize / prepare_cached / prepare_typed_cached (direct and through transactions) / cache and registry clear / remove, with server-side kills (now, on next query, on next Parse) and failing checks. Oracles: a connection the server closed before a get is never handed out; between return and hand-out the server sees exactly the documented check of the recycling method; a client whose check got an ErrorResponse is never handed out; reference statement-cache map per client (hit = same statement, no frontend message; miss = exactly one Parse with the same text and type oids; size() = number of keys); registry calls reach exactly the clients whose wrapper is alive and not taken (ground truth from Arc counts).",
+            "deadpool-postgres is run through Manager::from_connect against an in-process scripted PostgreSQL wire server (startup, simple query, Parse / Describe / Sync, Close, BEGIN / ROLLBACK) over tokio duplex streams. Histories of get / return / take / resize / prepare_cached / prepare_typed_cached (direct, through transactions, and several for one key in flight at once) / cache and registry clear / remove, with server-side kills (now, on next query, on next Parse) and failing checks. Oracles: a connection the server closed before a get is never handed out; between return and hand-out the server sees exactly the documented check of the recycling method; a client whose check got an ErrorResponse is never handed out; reference statement-cache map per client (hit = same statement, no frontend message; miss = exactly one Parse with the same text and type oids; size() = number of keys); registry calls reach exactly the clients whose wrapper is alive and not taken (ground truth from Arc counts).",
             "trusted: the scripted server's fidelity; quiescence is reached by a yield loop on a current-thread runtime", "stateful property-based testing (proptest) against a scripted wire-protocol server; reference cache model and wire log as oracle", "6 C16"),
     "C17": ("redx", "exploration",
             "The standalone deadpool-redis pool is built from a redis+unix:// URL and run against an in-process scripted RESP server that answers the n-th recycling PING with the correct echo, a stale echo, another value, -ERR, a disconnect or silence. At every reuse the server log since the return must be exactly UNWATCH then PING v with v never used before on this pool, answered with v, and the watch set must be empty; a connection whose PING was answered otherwise must never be handed out again and the get must succeed on another connection; Connection::take shrinks the pool by one, the taken connection keeps working and never comes back; the end probe takes the full capacity.",
             "trusted: the scripted server; silence is ended by a 40 ms recycle timeout (no verdict depends on the wall clock); one-directional: rejecting a correct echo is allowed", "stateful property-based testing (proptest) against a scripted RESP server; wire log as oracle", "6 C17"),
     "C18": ("cfgx", "exploration",
-            "Generated deadpool_postgres::Config values (every subset of the 20 fields, strings from ASCII / empty / quoting / percent-escape / non-ASCII pools, URLs from a URI and key=value grammar plus mutated and raw strings, every enum variant, pool and manager sections, runtime present or absent). get_pg_config() under catch_unwind is compared with a reference translation written from the statement: InvalidUrl iff tokio_postgres rejects the URL, DbnameMissing / DbnameEmpty by the effective dbname, every set scalar in effect, hosts / hostaddrs / ports = URL's then singular then plural, defaults only when no host is given; create_pool must carry the pool and manager sections into the built pool and report timeouts without a runtime as a build error.",
+            "Generated deadpool_postgres::Config values (every subset of the 20 fields, strings from ASCII / empty / quoting / percent-escape / non-ASCII pools, URLs from a URI and key=value grammar plus mutated and raw strings, every enum variant, pool and manager sections, runtime present or absent). get_pg_config() under catch_unwind is compared with a reference translation written from the statement: InvalidUrl iff tokio_postgres rejects the URL, DbnameMissing / DbnameEmpty by the effective dbname, every set scalar in effect, hosts / hostaddrs / ports = URL's then singular then plural, defaults only when no host is given; builder() must carry the whole pool section (including queue_mode) and the manager section, create_pool must carry them into the built pool and report timeouts without a runtime as a build error.",
             "tokio_postgres's URL parser and single-host interpretation are the reference; USER is pinned for the run", "property-based testing (proptest) with grammar-based generators; reference translation (differential) oracle", "6 C18"),
     "C19": ("cfgx", "exploration",
             "Generated redis / cluster / sentinel Configs (url(s) x connection(s) in {none, some}; grammar and malformed URLs), connection descriptions, sentinel node descriptions and PoolConfig values (durations over the full secs / nanos range). Oracles: both set -> UrlAndConnectionSpecified; accept / reject agrees with the redis crate on the same parameters and the standalone manager shows exactly the ConnectionInfo the redis crate derives (default 127.0.0.1:6379 for neither); conversions in both directions preserve addr, db, username, password, protocol; serde_json and config::Environment round trips are the identity, omitted sections take the documented defaults; on four loopback listeners a cluster / sentinel pool contacts exactly the named ones.",
@@ -82,7 +82,7 @@ CHECKS = {
 PENDING = {}
 
 T = "stateful property-based testing (proptest) with generated schedules and fault scripts; "
-B = "trusted: the harness's scripted manager, object ledger and call log; schedule points only between statements of deadpool (sequential consistency; tokio's semaphore internals are not interleaved); bounds max_size <= 5, <= 6 concurrent gets, <= 2 hooks per kind, <= 60 steps"
+B = "trusted: the harness's scripted manager, object ledger and call log; schedule points between statements of deadpool and inside every callback made without the pool's lock (sequential consistency; tokio's semaphore internals are not interleaved); stages: random histories, bounded-preemption sweep (every placement of one pause in a pause-free history) and, for C01 C02 C08 C09 C11, lock contention (an operation started while retain() holds the lock in its predicate); bounds max_size <= 5, <= 6 concurrent gets, <= 2 hooks per kind, <= 60 steps"
 
 def main():
     props = [json.loads(l)["id"] for l in open("/verif/properties.jsonl")]
